@@ -186,7 +186,7 @@ def run(ctx):
             n_sites += 1
             ctx.ob("C19.append", gen, e.call, e.sub == "open:a", "" if e.sub == "open:a" else "gen itself opens with " + e.sub)
         ctx.count("gen_write_reference_sites", n_sites)
-        ctx.floor("write reference sites in gen", n_sites, 4)
+        ctx.floor("write reference sites in gen", n_sites, 2)
 
     ctx.section(_sec_append)
 
@@ -428,7 +428,7 @@ def run(ctx):
         ctx.count("perentry_dispatch_targets", len(targets))
         reach = graph.reachable([gfc.qual] + targets)
         ctx.count("perentry_functions", len(reach))
-        ctx.need(len(reach) >= 50, "the per-entry pipeline of gen shrank to {} functions: call graph no longer resolves it".format(len(reach)))
+        ctx.need(len(reach) >= 25, "the per-entry pipeline of gen shrank to {} functions: call graph no longer resolves it".format(len(reach)))
         v = ctx.view(lambda w: getattr(w, "qual", None) in reach, rule="C19.perentry", prefix="perentry_")
         c10._modstate(v)
 
@@ -595,7 +595,7 @@ def _samepath(ctx, index, graph, gen):
                             line=c.lineno,
                         )
     ctx.count("functions_carrying_output_filename", n)
-    ctx.floor("functions carrying output_filename", n, 3)
+    ctx.floor("functions carrying output_filename", n, 1)
 
 
 def _oneshot(ctx, index, graph, gen):
@@ -627,6 +627,18 @@ def _oneshot(ctx, index, graph, gen):
 def _future(ctx, index):
     """gen_module must single out `__future__` imports when it orders the import block"""
     f = index.func("cdd.compound.gen_utils.gen_module")
+    # the ordering step may have been extracted into a private helper of the module
+    from ..core import RefGraph
+    from ..region import Region
+
+    reg = Region(index, RefGraph(index), f, allow_passed=True)
+    for g in reg.funcs:
+        if any(
+            isinstance(n, ast.Compare) and any(isinstance(c, ast.Constant) and c.value == "__future__" for c in [n.left] + n.comparators)
+            for n in iter_own(g.node)
+        ):
+            f = g
+            break
     hits = [
         n
         for n in iter_own(f.node)
